@@ -422,6 +422,8 @@ var baseTrusted = []string{
 	"float64 arithmetic treated as exact real arithmetic (round-off not modelled)",
 	"int/uint64 arithmetic treated as mathematical integers (no 64-bit overflow)",
 	"pointer parameters of the same struct type do not alias; pointers loaded from memory point to distinct objects",
+	"pointer parameters and pointer fields of the entry state are allocated (non-nil): functions are verified for non-nil receivers and struct pointers only",
+	"nil-ness of a map is a function of its key set and implies an empty key set; make() yields an arbitrary value of it",
 }
 
 func sanitize(s string) string {
@@ -487,9 +489,9 @@ func cmdCheck(args []string) int {
 	type unboundT struct{ name, reason string }
 	var unbound []unboundT
 	type unitInfo struct {
-		ID, Range   string
-		Stmts, Obs  int
-		Abstracted  []string
+		ID, Range  string
+		Stmts, Obs int
+		Abstracted []string
 	}
 	var uinfos []unitInfo
 	axioms := map[string]bool{}
